@@ -49,6 +49,16 @@ fn main() {
     let env_seed = std::env::var("VERIF_SEED").ok().and_then(|s| s.trim().parse::<i64>().ok()).map(|v| v as u64);
     let threads_default = std::thread::available_parallelism().map(|n| n.get()).unwrap_or(8).min(16);
     match args[1].as_str() {
+        // child mode of the process-history monitors: a fresh process runs one fixed battery in a given
+        // order of numeric types and prints one line per measurement (see checks::c19::order_probe)
+        "probe" => {
+            let which = args.get(2).map(|s| s.as_str()).unwrap_or("");
+            let order = args.get(3).map(|s| s.as_str()).unwrap_or("");
+            match which {
+                "C19" => checks::c19::order_probe(order),
+                _ => usage(),
+            }
+        }
         "list" => {
             for d in checks::all() {
                 println!("{}", d.id);
